@@ -521,7 +521,10 @@ class RecipeGen:
         if self.f["comment"]:
             opts.append(("comment", 1))
         if sc.mode == "app" and self.f["helpers"]:
-            opts += [("opup", 1), ("mcall", 1)]
+            hw = 6 if self.f.get("helper_boost") else 1
+            opts += [("opup", hw), ("mcall", hw)]
+            if self.f.get("helper_boost") and self.f["itxn"]:
+                opts.append(("itxn", 3))
         if self.f["helpers"]:
             opts.append(("pragma", 1))
         k = self.pick(opts)
@@ -1110,7 +1113,7 @@ def _profile_knobs(profile, feats: dict) -> dict:
         feats.update({"abi": True})
         k.update({"decl_churn": True, "low_versions": False})
     elif profile == "helper-interleave":
-        feats.update({"helpers": True, "abi": True})
+        feats.update({"helpers": True, "abi": True, "itxn": True, "helper_boost": True})
         k.update({"uniform": True})
     elif profile == "abi-cycles":
         feats.update({"abi": True, "recursion": True, "abi_recursion": True})
